@@ -52,7 +52,11 @@ def absorb(rep: Report, recs, mism, props):
 
 
 # ------------------------------------------------------------------------------------------------
-def stage_exhaustive(rep, props, *, label, consts, flnames, defdid="hash", mk=1, maxd=4):
+def _is_filterx(op):
+    return op.get("name") == "filter" and any(v not in ("T", "F") for v in core.seq(op.get("v", [])))
+
+
+def stage_exhaustive(rep, props, *, label, consts, flnames, defdid="hash", mk=1, maxd=4, light=()):
     """TLC enumerates every (state, op) in the bound; each is executed per flavour and validated."""
     t0 = time.time()
     c = dict(consts)
@@ -64,12 +68,14 @@ def stage_exhaustive(rep, props, *, label, consts, flnames, defdid="hash", mk=1,
     pairs = [(i, r["pre"], r["op"]) for i, r in enumerate(res.json_lines()) if "op" in r]
     res.cleanup()
     for fn in flnames:
-        recs = P.execute_pairs(pairs, fn, mk=mk, maxd=maxd, src_xid=11 if 11 in set(consts.get("Xids", ())) else 0)
+        # the large filter-verdict alphabet is data-flavour independent: executed for the first flavour only
+        use = pairs if fn not in light else [p for p in pairs if not _is_filterx(p[2])]
+        recs = P.execute_pairs(use, fn, mk=mk, maxd=maxd, src_xid=11 if 11 in set(consts.get("Xids", ())) else 0)
         mism, checked, wall = P.validate_records(recs, defdid=defdid, mk=mk)
         if checked != len([r for r in recs if "build_failed" not in r]):
             raise P.TLCError(f"{label}: validated {checked} of {len(recs)} records")
         absorb(rep, recs, mism, props)
-        rep.stages.append({"stage": f"{label}:{fn}", "pairs": len(pairs), "records": len(recs),
+        rep.stages.append({"stage": f"{label}:{fn}", "pairs": len(use), "records": len(recs),
                            "wall_s": round(time.time() - t0, 1)})
     return pairs
 
@@ -281,7 +287,7 @@ def run(prop: str, tier: str) -> int:
     # --- exhaustive transitions, executed
     fl_q = {"C02": ["str", "keyed", "falsy", "intnid"], "C01": ["str", "keyed"], "C04": ["str", "dataclass"]}.get(prop, ["str"])
     pairs = stage_exhaustive(rep, props, label="ex:plain<=3x2", consts=K(max_nodes=3, d=2, ops=focus, emit=True),
-                             flnames=fl_q if quick else PLAIN_FLAVOURS)
+                             flnames=fl_q if quick else PLAIN_FLAVOURS, light=(fl_q if quick else PLAIN_FLAVOURS)[1:])
     typed_ops = focus if not quick else [o for o in focus if o in ("add", "badpos", "add_node", "add_tree", "remove", "move")]
     stage_exhaustive(rep, props, label="ex:typed<=3x2",
                      consts=K(max_nodes=3, d=2, typed=True, kinds=(0, 2), ops=typed_ops, emit=True),
